@@ -17,6 +17,7 @@ CONSTANTS Threads,      \* thread ids
           Names,        \* selectable backends
           Default,      \* default backend
           PrevScope,    \* "global" (as found: one saved einsum) | "per_backend" (one saved einsum per backend)
+          WithDispatchModes,   \* TRUE: use_static_dispatch() / use_dynamic_dispatch() of the backend manager are part of the model
           MaxOps
 
 None   == "none"
@@ -25,13 +26,14 @@ Orig(b) == b                          \* the einsum backend b was created with i
 PrevKeys == IF PrevScope = "global" THEN {"all"} ELSE Names
 PrevKey(b) == IF PrevScope = "global" THEN "all" ELSE b
 
-VARIABLES glob,     \* shared default backend
+VARIABLES disp,     \* "dyn", or the einsum tag frozen into the manager's own attribute by use_static_dispatch()
+          glob,     \* shared default backend
           loc,      \* [Threads -> backend or None]   thread-local selection
           ein,      \* [Names -> Orig(b') or Cached]  the class attribute `einsum` of every backend
           prev,     \* [PrevKeys -> tag or None]      PREVIOUS_EINSUM
           nops,
           last      \* history: [op, t, b] of the last step
-vars == <<glob, loc, ein, prev, nops, last>>
+vars == <<disp, glob, loc, ein, prev, nops, last>>
 
 Tags == Names \cup {Cached}
 
@@ -44,43 +46,58 @@ OptPrev(p, e, b) == [p EXCEPT ![PrevKey(b)] = IF @ = None THEN e[b] ELSE @]
 OptEin(e, b) == [e EXCEPT ![b] = Cached]
 DefEin(p, e, b) == IF p[PrevKey(b)] # None THEN [e EXCEPT ![b] = p[PrevKey(b)]] ELSE e
 DefPrev(p, b) == [p EXCEPT ![PrevKey(b)] = None]
-Dispatch(g, l, e, t) == e[Get(g, l, t)]          \* what tl.einsum(...) runs in thread t (dynamic dispatch)
+Dispatch(g, l, e, t) == e[Get(g, l, t)]          \* what tl.einsum(...) runs in thread t: the import-time wrapper, dynamic in BOTH modes
+\* what tl.backend.einsum(...) (the manager's own attribute) runs: frozen by use_static_dispatch() for every thread
+AttrDispatch(d, g, l, e, t) == IF d = "dyn" THEN e[Get(g, l, t)] ELSE d
 
 InitGlob == Default
 InitLoc == [t \in Threads |-> IF t = Main THEN Default ELSE None]
 InitEin == [b \in Names |-> Orig(b)]
 InitPrev == [k \in PrevKeys |-> None]
 
-Init == /\ glob = InitGlob /\ loc = InitLoc /\ ein = InitEin /\ prev = InitPrev
+Init == /\ disp = "dyn" /\ glob = InitGlob /\ loc = InitLoc /\ ein = InitEin /\ prev = InitPrev
         /\ nops = 0 /\ last = [op |-> None, t |-> None, b |-> None]
 
 Select(t, b, local) ==
     /\ glob' = SelGlob(glob, b, local) /\ loc' = SelLoc(loc, t, b)
-    /\ UNCHANGED <<ein, prev>>
+    /\ UNCHANGED <<ein, prev, disp>>
     /\ nops' = nops + 1 /\ last' = [op |-> "Select", t |-> t, b |-> b]
 
 UseOpt(t) ==
     LET b == Get(glob, loc, t) IN
     /\ prev' = OptPrev(prev, ein, b) /\ ein' = OptEin(ein, b)
-    /\ UNCHANGED <<glob, loc>>
+    /\ UNCHANGED <<glob, loc, disp>>
     /\ nops' = nops + 1 /\ last' = [op |-> "Opt", t |-> t, b |-> b]
 
 UseDefault(t) ==
     LET b == Get(glob, loc, t) IN
     /\ ein' = DefEin(prev, ein, b) /\ prev' = DefPrev(prev, b)
-    /\ UNCHANGED <<glob, loc>>
+    /\ UNCHANGED <<glob, loc, disp>>
     /\ nops' = nops + 1 /\ last' = [op |-> "Default", t |-> t, b |-> b]
+
+\* use_static_dispatch(): the manager's attribute `einsum` is bound to whatever the CALLING thread's backend has right now
+UseStatic(t) ==
+    /\ WithDispatchModes
+    /\ disp' = ein[Get(glob, loc, t)]
+    /\ UNCHANGED <<glob, loc, ein, prev>>
+    /\ nops' = nops + 1 /\ last' = [op |-> "Static", t |-> t, b |-> Get(glob, loc, t)]
+UseDynamic(t) ==
+    /\ WithDispatchModes
+    /\ disp' = "dyn"
+    /\ UNCHANGED <<glob, loc, ein, prev>>
+    /\ nops' = nops + 1 /\ last' = [op |-> "Dynamic", t |-> t, b |-> Get(glob, loc, t)]
 
 Next == \E t \in Threads :
            \/ \E b \in Names, local \in BOOLEAN : Select(t, b, local)
            \/ UseOpt(t)
            \/ UseDefault(t)
+           \/ UseStatic(t) \/ UseDynamic(t)
 
 Spec == Init /\ [][Next]_vars
 Bound == nops <= MaxOps
 
 ----------------------------------------------------------------------------
-TypeOK == /\ glob \in Names /\ loc \in [Threads -> Names \cup {None}]
+TypeOK == /\ disp \in Tags \cup {"dyn"} /\ glob \in Names /\ loc \in [Threads -> Names \cup {None}]
           /\ ein \in [Names -> Tags] /\ prev \in [PrevKeys -> Tags \cup {None}]
 
 (* What the documentation promises. *)
@@ -92,8 +109,10 @@ NoForeignEinsum == \A b \in Names : ein[b] \in {Orig(b), Cached}
 SavedIsAnOriginal == \A k \in PrevKeys : prev[k] # Cached
 \* use_opt_einsum takes effect for the calling thread
 OptTakesEffect == last.op = "Opt" => Dispatch(glob, loc, ein, last.t) = Cached
+\* ... on BOTH surfaces (violated as found once static dispatch is on: the manager's frozen attribute never sees the plugin)
+OptTakesEffectOnManagerAttribute == last.op = "Opt" => AttrDispatch(disp, glob, loc, ein, last.t) = Cached
 \* selections never touch the plugin state
 SelectKeepsPlugins == [][\A t \in Threads, b \in Names, l \in BOOLEAN : Select(t, b, l) => UNCHANGED <<ein, prev>>]_vars
 \* the plugin switches never touch the selections
-PluginsKeepSelection == [][\A t \in Threads : (UseOpt(t) \/ UseDefault(t)) => UNCHANGED <<glob, loc>>]_vars
+PluginsKeepSelection == [][\A t \in Threads : (UseOpt(t) \/ UseDefault(t)) => UNCHANGED <<glob, loc, disp>>]_vars
 =============================================================================
